@@ -619,3 +619,31 @@ def fx_uninit(fx):
     c = _ctx()
     n = uninit.run(c, fx, ["src/lib.rs"], only=lambda fid: "uninitfx::" in fid)
     return n == 2 and _fires(c, "uninitfx::bad_array") and not _fires(c, "uninitfx::ok_array")
+
+
+def fx_clamploop(fx):
+    from rules import capsrc
+    c = _ctx()
+    n = capsrc.clamped_count(c, fx, ["src/lib.rs"], only=lambda fid: "clampfx::" in fid)
+    return n == 2 and _fires(c, "clampfx::bad_deserialize") and not _fires(c, "clampfx::ok_deserialize")
+
+
+def fx_takeexact(fx):
+    from rules import partial
+    c = _ctx()
+    n = partial.bounded_section_read(c, fx, ["src/lib.rs"], only=lambda fid: "takefx::" in fid)
+    return n == 3 and _fires(c, "takefx::bad_section") and not _fires(c, "takefx::ok_section")
+
+
+def fx_createtrunc(fx):
+    from rules import order
+    c = _ctx()
+    n = order.create_truncates(c, fx, ["src/lib.rs"], only=lambda fid: "createfx::" in fid)
+    return n == 2 and _fires(c, "createfx::Out2::create") and not _fires(c, "createfx::Out::create")
+
+
+def fx_release(fx):
+    from rules import release
+    c = _ctx()
+    n = release.run(c, fx, ["src/lib.rs"], only=lambda fid: "releasefx::" in fid)
+    return n >= 2 and _fires(c, "bad_free_then_scrub") and not _fires(c, "ok_scrub_then_free")
